@@ -154,7 +154,8 @@ struct SmallSetEngine : EngineBase {
       if (!got.insert(order[i]).second) dup = true;
     if (dup) violation("C04,C11", "model.duplicate_equivalent", fmt("iteration visits two equivalent elements: %s", vals_str(order).c_str()));
     std::vector<Val> g(got.begin(), got.end()), e(b.model->begin(), b.model->end());
-    if (!same_vals(g, e)) violation("C04", "model.contents", fmt("SmallSet holds %s, std::set holds %s", vals_str(g).c_str(), vals_str(e).c_str()));
+    // (also C11: the begin()..end() walk must visit the elements of the set, all of them and nothing else)
+    if (!same_vals(g, e)) violation("C04,C11", "model.contents", fmt("the begin()..end() walk of the SmallSet visits %s, std::set holds %s", vals_str(g).c_str(), vals_str(e).c_str()));
     if (static_cast<size_t>(s.size()) != e.size()) violation("C04", "model.size", fmt("size() %zu, std::set %zu", static_cast<size_t>(s.size()), e.size()));
     if (s.empty() != e.empty()) violation("C04", "model.empty", "empty() differs from std::set");
     if (full) {
